@@ -47,6 +47,7 @@ def run_oneshot(rep, pid, name, subcmd, scenarios, templates, seed, module, npro
                 for s in part:
                     if s.get("id") == ev.get("id"):
                         scn = s
-            rep.violation("%s id=%s" % (pred, ev.get("id") if ev else "?"),
+            tag = (" " + scn["tag"]) if scn and scn.get("tag") else ""
+            rep.violation("%s id=%s%s" % (pred, ev.get("id") if ev else "?", tag),
                           {"engine": subcmd, "module": module, "predicate": pred, "scenario": scn, "observed": ev})
     return allevs
